@@ -25,12 +25,15 @@ OTHER_SEPS = set('\r\x0b\x0c\x1c\x1d\x1e\x85\u2028\u2029')
 PAIR_TEXTS = ['foo\n', '# h', '- a\n  b\n', '```\ncode', '> q\n', '', '[l]: /u\n\n[l]\n', '| a | b |\n|---|---|\n| c | d |',
               '<div>\nx\n</div>\n', 'a\n\n', '    c\n', 'é日\n']
 _tmp = None
+# long inputs whose length straddles the usual buffer sizes (a reader that works in blocks must not split a line there)
+LONG_PATTERNS = ['alpha beta *gamma* delta\n', 'x\n', '- item `c`\n  more\n', 'word ' * 30 + '\n', '> q\n\n']
+LONG_SIZES = {'quick': [4095, 4096, 4097, 8191, 8192, 8193], 'thorough': list(range(4090, 4103)) + list(range(8186, 8199)) + [16383, 16384, 16385, 65535, 65536, 65537, 131072, 131073]}
 
 
 def describe(tier):
     return dict(line_alphabet=L, max_lines=BOUNDS[tier]['lines'], deep_sub_alphabet=LDEEP, deep_lines=BOUNDS[tier]['deep'], subprocess_max_lines=BOUNDS[tier]['sub_lines'],
                 renderers=list(RENDERERS), forms=['str', 'list+nl', 'list-nl', 'StringIO', 'file via cli.convert_file', 'cli.main', 'cli.main pairs', 'python -m mistletoe'],
-                pair_texts=PAIR_TEXTS)
+                pair_texts=PAIR_TEXTS, long_inputs=dict(patterns=LONG_PATTERNS, sizes=LONG_SIZES[tier]))
 
 
 def jobs(tier):
@@ -44,6 +47,7 @@ def jobs(tier):
     js += [('deep', i, j, b['deep']) for i in range(len(LDEEP)) for j in range(len(LDEEP))]
     js += [('spec', lo, lo + 16) for lo in range(0, 652, 16)]
     js += [('pairs', i) for i in range(len(PAIR_TEXTS))]
+    js += [('long', i, tier) for i in range(len(LONG_PATTERNS))]
     js += [('subprocess', i, b['sub_lines']) for i in range(len(L))]
     return js
 
@@ -240,6 +244,13 @@ def _run_job(job):
         _, i, j, k = job
         for rest in itertools.product(LDEEP, repeat=k - 2):
             run_lines(r, (LDEEP[i], LDEEP[j]) + rest)
+    elif kind == 'long':
+        pat = LONG_PATTERNS[job[1]]
+        for size in LONG_SIZES[job[2]]:
+            text = (pat * (size // len(pat) + 2))[:size]
+            check_text(r, text)
+            check_text(r, 'z' + text)
+        r.sample(dict(space='long', pattern=pat, sizes=LONG_SIZES[job[2]]), 1)
     elif kind == 'spec':
         from checks import c02
         for ex in c02.corpus()[job[1]:job[2]]:
